@@ -115,7 +115,9 @@ def main():
                 fired = sorted({r for pid in res for r in res[pid][1]})
                 broken = [pid for pid in res if res[pid][0] not in (0, 1) or "rule=engine" in res[pid][2]]
                 if kind == "benign":
-                    ok = not fired and not broken
+                    # `accepted_alarms`: a documented alarm that policy demands although the variant is behaviour-preserving (a new
+                    # panic-capable construct on the peer-bytes path is always listed for audit, DESIGN.md §10.8) — nothing else may fire
+                    ok = set(fired) <= set(m.get("accepted_alarms") or []) and not broken
                 else:
                     exp = m.get("expect") or []
                     if isinstance(exp, str):
